@@ -37,7 +37,7 @@ claim('C03', 'who-may-call inventory + effect-site gate analysis + provenance by
 claim('C04', 'instruction whitelist + per-iteration must-check gates + argument provenance on SSA',
       'Static, all-paths: the identity check reads the chain only at constant index 0; it succeeds only through the wildcard or a true subset test whose first argument is a parsed listed identity and whose second is the parsed subject of certs[0]; '
       'the subset function ranges over the identity, performs only comma-ok lookups and string equality (no call: no prefix/fold), and returns true only after the loop; every unparsable identity/subject, missing separator, empty value and '
-      'missing x509 identity is fail-closed; the DN parser rejects =#, multi-valued and duplicate RDNs, aliases S to ST and demands C, ST, O. RFC 4514 parsing is trusted to go-ldap.', 'DESIGN.md 2/C04')
+      'missing x509 identity is fail-closed; the error the identity check hands back is recorded in a validation result on every path on which it is not nil (no path from the call to a success exit avoids both `error == nil` and the store); the DN parser rejects =#, multi-valued and duplicate RDNs, aliases S to ST and demands C, ST, O. RFC 4514 parsing is trusted to go-ldap.', 'DESIGN.md 2/C04')
 claim('C05', 'abstract interpretation over a finite domain with loop fixpoint (aggregator) + must-check gates + argument provenance',
       'Static: the aggregation function is interpreted abstractly (per-certificate result in {OK, NonRevokable, Unknown, Revoked, other}, two-point counter abstraction, ghost bits) to a fixpoint: in every reachable abstract state a Revoked '
       'certificate makes the aggregate Revoked and any non-OK certificate makes it non-OK; the loop is cut by equal lengths, visits all indices and indexes results and chain alike; both validator interfaces get the unsliced chain and the same '
